@@ -406,6 +406,8 @@ def run(ctx: Ctx) -> int:
                             got |= need_attrs
                         elif isinstance(st.value, (ast.List, ast.Tuple, ast.Set)):
                             got |= {const_str(e) for e in st.value.elts if const_str(e)}
+                        else:
+                            raise AnalysisError(f"C13.d: the attribute table `{it.id}` is computed as `{txt[:80]}`, a form this rule does not know; it must be re-anchored")
     ctx.oblige("C13.d", need_attrs <= got and same_param, ctor[0], f"each resolved parameter takes name, annotation, default and kind from the same inspect.Parameter `{lv}` of the signature it comes from (attributes found: {sorted(got & need_attrs)})", fn=fsig)
     # order: self dropped under `if parent`, before the var-slot indexes are taken
     slices = [s for s in _assigns(fsig) if isinstance(s.value, ast.Subscript) and isinstance(s.value.slice, ast.Slice) and _is_name(s.value.value, s.targets[0].id)]
